@@ -424,7 +424,7 @@ impl World {
             match r {
                 crate::shard::CaseResult::Aborted(desc, stderr) => {
                     if prop == "C08" && desc.starts_with("cpu-time limit exceeded") {
-                        rep.violation(format!("an honest party did not return within the CPU-time limit on hostile bytes via {via}"), json!({"cfg": cfg.name, "corrupt": fc.plan.corrupt, "class": fc.class, "label": fc.label, "limit_s": std::env::var("PV_CASE_CPU_LIMIT_S").unwrap_or("120".into())}));
+                        rep.violation(format!("an honest party did not return within the CPU-time limit on hostile bytes via {via}"), json!({"cfg": cfg.name, "corrupt": fc.plan.corrupt, "class": fc.class, "label": fc.label, "limit_s": std::env::var("PV_CASE_CPU_LIMIT_S").unwrap_or("40".into())}));
                     } else if desc.starts_with("cpu-time limit exceeded") {
                         rep.inconclusive("case exceeded the CPU-time limit");
                     } else if prop == "C08" && (stderr.contains("memory allocation of") || stderr.contains("capacity overflow")) {
